@@ -6,7 +6,7 @@ S=$1; W=$2
 git -C $W checkout -q -f --detach main && git -C $W clean -fdq
 demo=$(ls $S/demo_test.go 2>/dev/null || ls $S/demo/main.go 2>/dev/null)
 pkgdir=$W/v2
-grep -q '^package lib' $demo && pkgdir=$W/lib
+head -4 $demo | grep -q '/lib/' && pkgdir=$W/lib
 grep -q '^package main' $demo && pkgdir=$W
 if grep -q 'v2/jd' $S/notes.md 2>/dev/null && grep -q '^package main' $demo; then pkgdir=$W/v2/jd; fi
 run_demo() { cp $demo $pkgdir/zz_seed_demo_test.go; (cd $pkgdir && go test -mod=mod -vet=off -count=1 . 2>&1 | tail -3); rm -f $pkgdir/zz_seed_demo_test.go; }
